@@ -131,6 +131,39 @@ pub fn gen_plan(rng: &mut Prng) -> RgPlan {
                 }
             }
         }
+        if rng.chance(1, 12) {
+            // `long-list`: hundreds of distinct edges over many vertices, then the reversed copies of
+            // a part of them (every position of the list gets its reversed duplicate in some run)
+            let n = match rng.below(4) {
+                0 => rng.range(90, 110),
+                1 => rng.range(250, 262),
+                2 => rng.range(0, 40),
+                _ => rng.range(0, 400),
+            };
+            let side = 2 + (n as f64).sqrt() as usize;
+            let mut edges: Vec<(String, String)> = Vec::with_capacity(2 * n);
+            let mut k = 0usize;
+            while edges.len() < n {
+                let (a, b) = (k / side, side + k % side);
+                k += 1;
+                edges.push(if rng.coin() { (format!("v{a}"), format!("v{b}")) } else { (format!("v{b}"), format!("v{a}")) });
+            }
+            let reversed: Vec<(String, String)> = match rng.below(3) {
+                0 => edges.iter().map(|(a, b)| (b.clone(), a.clone())).collect(),
+                1 => edges.iter().filter(|_| rng.chance(1, 3)).map(|(a, b)| (b.clone(), a.clone())).collect(),
+                _ => edges.iter().rev().take(rng.range(0, 12)).map(|(a, b)| (b.clone(), a.clone())).collect(),
+            };
+            edges.extend(reversed);
+            return RgPlan::Convert {
+                edges,
+                undirected: rng.chance(4, 5),
+                colors: None,
+                dot: rng.chance(1, 6),
+                to_file: rng.chance(1, 3),
+                stale: 0,
+                in_place: false,
+            };
+        }
         RgPlan::Convert {
             edges,
             undirected: rng.coin(),
@@ -159,6 +192,60 @@ pub struct Spawned {
     pub signal: bool,
     pub stdout: Vec<u8>,
     pub stderr: Vec<u8>,
+}
+
+/// Wall-clock limit for one child process. The tick budget bounds the library's work inside a
+/// child, but a broken tree can loop where nothing ticks; such a child is killed and its run is
+/// unjudged (reported like an exhausted tick budget, exit status 97), never a verdict.
+pub const CHILD_WALL_LIMIT_S: u64 = 60;
+pub static CHILD_TIMEOUTS: std::sync::atomic::AtomicU64 = std::sync::atomic::AtomicU64::new(0);
+
+type WatchMap = std::sync::Mutex<std::collections::HashMap<u32, (std::time::Instant, bool)>>;
+static WATCHED: std::sync::OnceLock<WatchMap> = std::sync::OnceLock::new();
+
+fn watched() -> &'static WatchMap {
+    WATCHED.get_or_init(|| {
+        std::thread::Builder::new()
+            .name("child-watchdog".into())
+            .spawn(|| loop {
+                std::thread::sleep(std::time::Duration::from_secs(1));
+                if let Some(m) = WATCHED.get() {
+                    let mut g = m.lock().expect("watch map");
+                    for (pid, (since, killed)) in g.iter_mut() {
+                        if !*killed && since.elapsed().as_secs() >= CHILD_WALL_LIMIT_S {
+                            let _ = Command::new("/bin/kill").arg("-9").arg(pid.to_string()).stdin(Stdio::null()).stdout(Stdio::null()).stderr(Stdio::null()).status();
+                            *killed = true;
+                        }
+                    }
+                }
+            })
+            .expect("cannot start the child watchdog");
+        std::sync::Mutex::new(std::collections::HashMap::new())
+    })
+}
+
+/// `wait_with_output` under the wall-clock limit.
+pub fn wait_watched(child: std::process::Child) -> Spawned {
+    use std::os::unix::process::ExitStatusExt;
+    let pid = child.id();
+    watched().lock().expect("watch map").insert(pid, (std::time::Instant::now(), false));
+    let out = child.wait_with_output().expect("wait failed");
+    let killed = watched().lock().expect("watch map").remove(&pid).map(|(_, k)| k).unwrap_or(false);
+    if killed {
+        CHILD_TIMEOUTS.fetch_add(1, std::sync::atomic::Ordering::Relaxed);
+        return Spawned {
+            status: Some(97),
+            signal: false,
+            stdout: out.stdout,
+            stderr: format!("killed by the simulator after {CHILD_WALL_LIMIT_S} s of wall-clock time (not judged)").into_bytes(),
+        };
+    }
+    Spawned {
+        status: out.status.code(),
+        signal: out.status.signal().is_some(),
+        stdout: out.stdout,
+        stderr: out.stderr,
+    }
 }
 
 pub fn run_dir(tag: &str) -> PathBuf {
@@ -220,14 +307,7 @@ pub fn spawn_env(bin: &str, args: &[String], cwd: &PathBuf, stdin: Option<&[u8]>
             let _ = si.write_all(data);
         }
     }
-    let out = child.wait_with_output().expect("wait failed");
-    use std::os::unix::process::ExitStatusExt;
-    Spawned {
-        status: out.status.code(),
-        signal: out.status.signal().is_some(),
-        stdout: out.stdout,
-        stderr: out.stderr,
-    }
+    wait_watched(child)
 }
 
 fn viol(oracle: &str, site: &str, detail: String) -> Violation {
@@ -489,6 +569,10 @@ pub fn execute(plan: &RgPlan) -> RunOutcome {
     let mut vs: Vec<Violation> = Vec::new();
     let status = first.sp.status;
     let text = String::from_utf8_lossy(&first.output).to_string();
+    if status == Some(97) && first.sp.stderr.starts_with(b"killed by the simulator") {
+        out.unjudged = Some("child process exceeded the wall-clock limit".into());
+        return out;
+    }
 
     if first.sp.signal || status == Some(101) {
         let msg = String::from_utf8_lossy(&first.sp.stderr);
@@ -718,7 +802,11 @@ pub fn execute(plan: &RgPlan) -> RunOutcome {
         let env = env_variant(plan);
         let again = run_once_env(plan, None, env);
         out.steps += 1;
-        if again.sp.status != first.sp.status || again.output != first.output {
+        let refused = !again.sp.signal && !matches!(again.sp.status, Some(0) | Some(101) | None);
+        if env == 1 && refused && first.sp.status == Some(0) {
+            // a tool that refuses to convert from a pipe, with a message, reports an error
+            bump(&mut stats, "probe.input-pipe-refused");
+        } else if again.sp.status != first.sp.status || again.output != first.output {
             match env {
                 0 => vs.push(viol("G8", "cwd-removed", format!("the same request started in a removed working directory (absolute paths only) ends with {:?} instead of {:?} / prints something else: {}", again.sp.status, first.sp.status, String::from_utf8_lossy(&again.sp.stderr).lines().take(2).collect::<Vec<_>>().join(" | ")))),
                 1 => vs.push(viol("G8", "input-pipe", format!("the same --convert request reading its input through a pipe (/dev/stdin) ends with {:?} instead of {:?} / prints something else", again.sp.status, first.sp.status))),
